@@ -554,3 +554,59 @@ Proof.
     + rewrite (Qeq_eqR _ _ (weights_sum_l g HP)). unfold Q2R. cbn. lra.
     + eapply Forall2_impl; [|exact W]. intros w q (_ & B & _). exact B.
 Qed.
+
+(** * the groups the byte tokenizer emits: depth <= 2, so the float weights of a character sum to 1 within 2^-22 *)
+Lemma utf8_len_le4 : forall c, (length (utf8 c) <= 4)%nat.
+Proof. intros c. unfold utf8. destruct (c <? 128)%N; [cbn; lia|]. destruct (c <? 2048)%N; [cbn; lia|]. destruct (c <? 65536)%N; cbn; lia. Qed.
+Lemma utf8s_len_le : forall l, (length (utf8s l) <= 4 * length l)%nat.
+Proof.
+  induction l as [|c l IH]; [cbn; lia|]. unfold utf8s in *. cbn [flat_map length]. rewrite app_length.
+  pose proof (utf8_len_le4 c). lia.
+Qed.
+Lemma fold_zmax_le : forall (l : list Z) m, (1 <= m)%Z -> Forall (fun x => x <= m)%Z l -> (fold_right Z.max 1%Z l <= m)%Z.
+Proof. intros l m Hm H. induction H; cbn [fold_right]; lia. Qed.
+Lemma fold_max_le : forall (l : list nat) m, Forall (fun x => x <= m)%nat l -> (fold_right Nat.max 0%nat l <= m)%nat.
+Proof. intros l m H. induction H; cbn [fold_right]; lia. Qed.
+
+Lemma cluster_group_Cok : forall cpg c, (Z.of_nat (length c) <= 2 ^ 22)%Z ->
+  Cok (cluster_group cpg c) /\ (depth (cluster_group cpg c) <= 2)%nat.
+Proof.
+  intros cpg c Hc. unfold cluster_group, Cok. destruct cpg.
+  - cbn [sizes_okb pmax depth]. rewrite !map_length, !map_map. cbn [pmax depth sizes_okb].
+    assert (D : (fold_right Nat.max 0%nat (map (fun _ : cp => 1%nat) c) <= 1)%nat).
+    { apply fold_max_le. apply Forall_forall. intros x Hx. apply in_map_iff in Hx as (y & <- & _). lia. }
+    assert (P : (fold_right Z.max 1%Z (map (fun x : cp => Z.max 1 (Z.of_nat (length (utf8 x)))) c) <= 4)%Z).
+    { apply fold_zmax_le; [lia|]. apply Forall_forall. intros x Hx. apply in_map_iff in Hx as (y & <- & _).
+      pose proof (utf8_len_le4 y). lia. }
+    pose proof (fold_zmax_ge1 (map (fun x : cp => Z.max 1 (Z.of_nat (length (utf8 x)))) c)) as P1.
+    repeat split.
+    + apply andb_true_iff. split; [apply Z.leb_le; unfold P24; lia|].
+      apply forallb_forall. intros g Hg. apply in_map_iff in Hg as (y & <- & _). cbn [sizes_okb].
+      apply Z.leb_le. pose proof (utf8_len_le4 y). unfold P24. lia.
+    + apply Z.le_trans with (2 ^ 22 * 4)%Z; [|lia]. apply Z.mul_le_mono_nonneg; lia.
+    + lia.
+    + lia.
+  - cbn [sizes_okb pmax depth]. pose proof (utf8s_len_le c). repeat split; try lia.
+    apply Z.leb_le. unfold P24. lia.
+Qed.
+
+Lemma cluster_group_fl_l : forall cpg c, c <> [] -> (Z.of_nat (length c) <= 2 ^ 22)%Z ->
+  let ws := weights_fl true (cluster_group cpg c) in
+  length ws = length (utf8s c) /\
+  Forall (fun w => is_finite w = true /\ 0 < B2R w <= 1) ws /\
+  Rabs (sumR (map B2R ws) - 1) <= 4 * u24.
+Proof.
+  intros cpg c Hne Hc ws. destruct (cluster_group_Cok cpg c Hc) as [HC HD].
+  pose proof (cluster_group_positive cpg c Hne) as HP.
+  destruct (weights_fl_range_l _ HC) as [R1 R2]. specialize (R2 HP).
+  split; [unfold ws; rewrite weights_fl_length; apply cluster_group_len|]. split.
+  - apply Forall_forall. intros w Hw. rewrite Forall_forall in R1, R2.
+    destruct (R1 w Hw) as (F & B0 & B1). specialize (R2 w Hw). repeat split; assumption.
+  - eapply Rle_trans; [apply (weights_fl_sum_close_l _ HC ltac:(lia) HP)|].
+    apply Rmult_le_compat_r; [apply Rlt_le, u24_pos|].
+    apply Rle_trans with (INR 4); [apply le_INR; lia|]. cbn. lra.
+Qed.
+
+(** special, prefix and suffix tokens are [Full 1] groups: their weight is exactly 1.0 *)
+Lemma full1_fl : weights_fl true (Full 1) = [f32_one].
+Proof. cbn [weights_fl repeat]. f_equal. apply B2SF_inj. vm_compute. reflexivity. Qed.
